@@ -7,6 +7,7 @@ from ..core import Case, Check, outcomes_agree
 from ..progen import I, L, S
 from ..progcheck import ProgCheck
 from ..run import hx
+from .. import fe
 from .c03 import OPS, CMP
 from .c04 import LOGIC
 from .c05 import IDF, UNOPS
@@ -30,6 +31,14 @@ def sty(v):
     return {"B": "b0", "I": "i0", "D": "d0", "S": "s0", "R": "r0", "C": "c0"}[v[0]]
 
 
+# findings of this property that are not (yet) in known_findings.json — JSON entries in notes/NOTES-C02FE.md
+LOCAL_FINDINGS = {
+    "C02.safety_table_major_changes": "a `$`-qualified table variable (and a protected table iterator) can change its major type: "
+                                      "Symbol::check_safety accepts any table for a table symbol, so `$t = tab(2, 1); $t = tab(1, \"a\");` "
+                                      "turns a table of integers into a table of strings (manual: the type of a $NAME cannot change)",
+}
+
+
 class C02(ProgCheck):
     pid = "C02"
     proof_modules = ["BlocV.Proofs.C02"]
@@ -39,8 +48,11 @@ class C02(ProgCheck):
             "model's static type, and — the property itself — whenever it is not opaque, with the type of the value the same "
             "node evaluates to; (b) program level: seeded random programs run as one unit (parse + run) and statement by "
             "statement (parseStatement + execute): same outcome, output and variables; (c) `$`-qualified variables and loop "
-            "iterators: a type-changing assignment must be rejected while the constraint is active. distinct = expression + "
-            "operand classes, resp. program text.")
+            "iterators: a type-changing assignment must be rejected while the constraint is active; (d) front end: the SOURCE TEXT "
+            "of every generated program (and of token-damaged variants) is run by the model through Lex/Parse/Elab/Safety "
+            "(`src`) and must give the answer of the S-expression rendering and of the library (outcome, output, variables, "
+            "parse-error code); (e) `$` / for / forall constraint families against Model/Safety.lean (static pass and "
+            "storeVariable). distinct = expression + operand classes, resp. program text.")
 
     def node_case(self, cid, model, expr_src, setup, meta):
         ops = ["new 0", "prog 0 " + hx(IDF)] + setup + ["expr 0 " + hx(expr_src + ";")]
@@ -97,6 +109,45 @@ class C02(ProgCheck):
             src = c.meta["src"]
             cases.append(Case("c%d" % n, c.model_line, "|".join(["new 0", "step 0 " + hx(src), "out 0", "dump 0"]),
                               {"family": "stepwise", "src": src, "ast": prog}))
+            # (d) front end: the SAME text through Lex -> Parse -> Elab -> runProgram (judged after its S-expression twin)
+            n += 1
+            cases.append(fe.fe_case(self, "c%d" % n, src, {"family": "fe", "twin": True, "ast": prog}))
+            # (d') the text with one token damaged: rejected by both sides with the same code, or run identically
+            for _ in range(2):
+                n += 1
+                cases.append(fe.fe_case(self, "c%d" % n, fe.mutate(self.rng, src), {"family": "fe-mut"}, fuel=20000))
+        # (d'') programs with tables, members and forall through the front end (no S-expression twin needed: C09 owns that tie)
+        for k in range(60 if quick else 1000):
+            g = progen.Gen(self.rng, nvars=2, funcs=(k % 3 == 0), errors=0.03, tables=0.35)
+            prog = g.program(nstmts=self.rng.randint(4, 8), depth=2)
+            n += 1
+            c = self.prog_case("c%d" % n, prog, {"family": "batch"})
+            cases.append(c)
+            n += 1
+            cases.append(fe.fe_case(self, "c%d" % n, c.meta["src"], {"family": "fe-tables", "twin": True, "ast": prog}))
+        # (e) constraint flags through the front end + Model/Safety.lean: `$` variables, for / forall iterators
+        for (ta, la), (tb, lb) in itertools.product(fe.SAFE_LITS, fe.SAFE_LITS):
+            n += 1
+            cases.append(fe.fe_case(self, "c%d" % n, "x = %s;\ny = %s;\n$q = x;\n$q = y;\nr = 1;\n" % (la, lb),
+                                    {"family": "fe-safety", "safety": (ta, tb)}))
+            if ta == "i0":
+                n += 1
+                cases.append(fe.fe_case(self, "c%d" % n, "y = %s;\nfor k in 1 to 2 loop\n  k = y;\n  break;\nend loop;\n" % lb,
+                                        {"family": "fe-iter", "safety": ("i0", tb)}))
+                n += 1
+                cases.append(fe.fe_case(self, "c%d" % n, "y = %s;\nfor k in 1 to 2 loop\n  if false then k = y; end if;\nend loop;\nk = y;\n" % lb,
+                                        {"family": "fe-iter-dead", "safety": ("i0", tb)}))
+            if ta[1] == "0" and ta[0] in "idbs":
+                n += 1
+                cases.append(fe.fe_case(self, "c%d" % n, "t = tab(2, %s);\ny = %s;\nforall e in t loop\n  e = y;\n  break;\nend loop;\n" % (la, lb),
+                                        {"family": "fe-forall", "safety": (ta, tb)}))
+            # via a function call: the declared return type is the static type, the value decides at run time
+            # (Context::storeVariable); model: Safety.storeCheck
+            if ta in fe.TYNAME:
+                n += 1
+                src = "function f(p) return %s is\nbegin\n  return p;\nend;\nx = %s;\ny = %s;\n$q = x;\n$q = f(y);\n" % (fe.TYNAME[ta], la, lb)
+                cases.append(Case("c%d" % n, "store %s 1 %s %s" % (ta, ta, tb), "|".join(["new 0", "prog 0 " + hx(src), "out 0", "dump 0"]),
+                                  {"family": "fe-store", "safety": (ta, tb), "src": src}))
         # (b') a variable re-typed more than once inside a unit that is compiled but not executed: the symbol must be back to
         # its previous type for the next unit (statement-at-a-time), as it is for the whole program
         lits = {"i": "1", "d": "2.5", "s": '"s"', "b": "true"}
@@ -126,8 +177,12 @@ class C02(ProgCheck):
 
     def judge(self, c, iraw, m, stderr):
         fam = c.meta.get("family")
+        if fam == "batch":
+            fe.note_sexp_answer(self, c.meta["src"], m.get("model"))
         if fam in ("batch", "stepwise"):
             return ProgCheck.judge(self, c, iraw, m, stderr)
+        if fam and fam.startswith("fe"):
+            return self.judge_fe_family(fam, c, iraw, m, stderr)
         if iraw.startswith("crash") or iraw.endswith("diverges"):
             self.tally(c, iraw, m)
             kf = self.crash_kf(c, iraw, stderr)
@@ -211,6 +266,61 @@ class C02(ProgCheck):
         got = rest.split(" rt=")[0]
         if not outcomes_agree(got, mout):
             return self.record_violation("`%s` evaluates to %s, the model gives %s" % (c.meta["expr"], got, mout), c, got, m)
+
+    def judge_fe_family(self, fam, c, iraw, m, stderr):
+        if fam == "fe-store":
+            # run-time constraint check: library outcome of the second store vs Safety.storeCheck
+            fe.fe_init(self)["by_family"][fam] = fe.fe_init(self)["by_family"].get(fam, 0) + 1
+            outcome, out, dump = self.split_impl(c, iraw)
+            self.tally(c, outcome or iraw[:20], m)
+            self.distinct.add((fam, c.meta["safety"]))
+            mout = m.get("model") or ""
+            a, b = c.meta["safety"]
+            if mout.startswith("rerr"):
+                if not (outcome or "").startswith(mout.split()[0] + " " + mout.split()[1]):
+                    return self.record_violation("`$q` (%s) receives a %s from a function declared %s: the model's storeVariable refuses (%s), "
+                                                 "the library answers %s" % (a, b, a, mout, outcome), c, outcome, m)
+                if fe.same_kind(a, b):
+                    return self.record_violation("a store of the same kind is refused", c, outcome, m)
+                return
+            if not mout.startswith("ok "):
+                return self.record_violation("unparsable model answer", c, outcome, m)
+            if outcome != "ok-":
+                return self.record_violation("`$q` (%s) receives a %s: the model's storeVariable accepts, the library answers %s" % (a, b, outcome), c, outcome, m)
+            got = dump["syms"].get("$Q") if dump else None
+            if got is None or got[0].split("{")[0].split("#")[0] != mout.split()[1].split("#")[0]:
+                return self.record_violation("after the store `$q` has type %s, the model says %s" % (got and got[0], mout.split()[1]), c, outcome, m)
+            if not fe.same_kind(a, b):
+                return self.record_violation("`$q` of type %s accepted a value of type %s at run time" % (a, b), c, outcome, m)
+            return
+        before = len(self.violations)
+        fe.judge_fe(self, lambda c2, i2, m2, s2: ProgCheck.judge(self, c2, i2, m2, s2), c, iraw, m, stderr)
+        if len(self.violations) > before or fam not in ("fe-safety", "fe-iter", "fe-forall", "fe-iter-dead"):
+            return
+        # the property, on the library's own answer: while the constraint is active the kind cannot change
+        outcome, out, dump = self.split_impl(c, iraw)
+        a, b = c.meta["safety"]
+        self.distinct.add((fam, a, b))
+        accepted = outcome == "ok-"
+        if fam == "fe-iter-dead":
+            # outside the loop (and in dead code inside it, same kind only) the constraint is off again
+            return
+        if accepted and fe.same_kind(a, b) and int(a[1:]) > 0 and a[0] != b[0]:
+            # recorded finding (notes/NOTES-C02FE.md; to be merged into known_findings.json): check_safety lets a protected
+            # table become a table of another major
+            kf = "C02.safety_table_major_changes"
+            self.known_hits.setdefault(kf, {"what": LOCAL_FINDINGS[kf], "example": c.meta["src"].replace("\n", " "), "impl": outcome})
+            return
+        if accepted and not fe.same_kind(a, b):
+            return self.record_violation("%s: a constrained symbol of type %s accepted a value of type %s" % (fam, a, b), c, outcome, m)
+        if not accepted and a == b and not (fam == "fe-forall"):
+            return self.record_violation("%s: a constrained symbol of type %s refused a value of the same type (%s)" % (fam, a, outcome), c, outcome, m)
+
+    def write_evidence(self, extra=None):
+        ex = dict(extra or {})
+        if hasattr(self, "fe"):
+            ex.update(fe.fe_coverage(self))
+        return ProgCheck.write_evidence(self, extra=ex)
 
     def crash_kf(self, c, iraw, stderr):
         """a crash is C01's concern: tolerated here only where C01 lists it as a known finding (same construct, same crash class)"""
